@@ -5,3 +5,4 @@ import Props.C06
 import Props.C08
 import Props.C07
 import Props.C04
+import Props.C19
